@@ -163,7 +163,7 @@ Section StreamPred.
   Variable text : str.
   Variable nominative : tok -> bool.
   Variable P : tok -> Prop.
-  Hypothesis P_merge : forall a b m, P a -> P b -> merge a b = Some m -> P m.
+  Variable P_merge : forall a b m, P a -> P b -> merge a b = Some m -> P m.
 
   Definition pinv (s : st) : Prop :=
     (forall t, In (T t) (all_rev s) -> P t) /\ (forall t, last s = Some t -> P t).
@@ -254,8 +254,6 @@ Proof.
   intros table s low x Hx. unfold get_extractors_ac in Hx.
   exact (proj1 (proj1 (filter_In _ _ _) Hx)).
 Qed.
-
-Definition ed_cands (t : tok) : list nat := match t_exact t with [] => t_var t | l => l end.
 
 (* the per-row condition (reflected on the generated table) *)
 Definition row_meta_ok (x : xrow) : bool :=
@@ -389,6 +387,21 @@ Proof.
     apply Forall_forall. intros t' Hin. exact (proj2 (extract_with_meta_ok U0 table s t' Hrows Hin)).
 Qed.
 
+(* the definition of tokenize_text, one unfolding at a time (propositional equalities: the kernel
+   must not be left to compare terms across these definitions on the generated table) *)
+Lemma tokenize_text_unfold : forall s,
+  tokenize_text s =
+  tokenize s (nominative_by nominative_ids)
+           (extract_with U (get_extractors_ac xtable s (lower_str lower1 s)) s).
+Proof.
+  intros s.
+  assert (H1 : tokenize_text s = tokenize s (nominative_by nominative_ids) (candidates_text s))
+    by reflexivity.
+  assert (H2 : candidates_text s =
+               extract_with U (get_extractors_ac xtable s (lower_str lower1 s)) s) by reflexivity.
+  rewrite H1, H2. reflexivity.
+Qed.
+
 Theorem tokenize_text_toks_partial :
   forallb row_meta_ok xtable = true ->
   forall s k t, nth_error (fst (tokenize_text s)) k = Some (T t) ->
@@ -400,8 +413,9 @@ Proof.
   assert (Hrows : forall x, In x (get_extractors_ac xtable s (lower_str lower1 s)) ->
                             row_meta_ok x = true).
   { intros x Hx. exact (proj1 (forallb_forall _ _) Htab x (in_get_extractors_ac _ _ _ _ Hx)). }
-  exact (tokenize_extract_toks_partial U (get_extractors_ac xtable s (lower_str lower1 s)) s
-           (nominative_by nominative_ids) Hrows k t Hk).
+  rewrite tokenize_text_unfold in Hk.
+  pose proof (tokenize_extract_toks_partial U _ s _ Hrows k t Hk) as [H1 H2].
+  split; [exact H1|exact H2].
 Qed.
 
 (* ------------------------------------------------------------------ *)
@@ -510,9 +524,28 @@ Proof.
             forall r', In r' (group_body 1 (row_re (fst x))) -> 0 < minlen r').
   { intros x Hx. apply row_nonnull_spec.
     exact (proj1 (forallb_forall _ _) Htab x (in_get_extractors_ac _ _ _ _ Hx)). }
-  exact (cits_nonempty_of_table U (get_extractors_ac xtable s (lower_str lower1 s)) s
-           (nominative_by nominative_ids) Hrows).
+  rewrite tokenize_text_unfold.
+  exact (cits_nonempty_of_table U _ s (nominative_by nominative_ids) Hrows).
 Qed.
+
+(* ------------------------------------------------------------------ *)
+(* the two table conditions, by kernel computation (about 1 s each)     *)
+(* ------------------------------------------------------------------ *)
+Lemma xtable_row_meta_ok_refl : forallb row_meta_ok xtable = true.
+Proof. vm_compute. reflexivity. Qed.
+
+Lemma xtable_row_nonnull_refl : forallb row_nonnull xtable = true.
+Proof. vm_compute. reflexivity. Qed.
+
+Theorem tokenize_text_toks_partial_all : forall s k t,
+  nth_error (fst (tokenize_text s)) k = Some (T t) ->
+  (t_kind t = KStopWord -> exists v, glookup g_stop_word (t_groups t) = Some v) /\
+  (t_kind t = KCitation -> t_short t = false ->
+     exists i, In i (match t_exact t with [] => t_var t | l => l end) /\ src_of_gen i <= 2).
+Proof. exact (tokenize_text_toks_partial xtable_row_meta_ok_refl). Qed.
+
+Theorem tokenize_text_cits_nonempty_all : forall s, cits_nonempty (snd (tokenize_text s)).
+Proof. exact (tokenize_text_cits_nonempty xtable_row_nonnull_refl). Qed.
 
 Print Assumptions refs_engine_ok.
 Print Assumptions tokenize_text_stream_ok.
@@ -529,3 +562,5 @@ Print Assumptions finditer_cap_body.
 Print Assumptions tokens_nonempty.
 Print Assumptions cits_nonempty_of_table.
 Print Assumptions tokenize_text_cits_nonempty.
+Print Assumptions tokenize_text_toks_partial_all.
+Print Assumptions tokenize_text_cits_nonempty_all.
